@@ -2,9 +2,12 @@
 Proof: Props/C15.v (model Model/PPSpline.v + Model/Linalg.v at T := R).
 Correspondence: the same model at T := float (Run/RunSpline.v, op 10) against PPSpline<f64|Dual|Dual2>
 ::new / csolve / ppdnev_single / ppdnev_single_dual / ppdnev_single_dual2 / mapped_value through the
-harness (`rlharness spline`, op `pp`): coefficients, values, gradients by name, Ok/Err/Panic class."""
+harness (`rlharness spline`, op `pp`): coefficients, values, gradients by name, Ok/Err/Panic class; ops `evd` / `vec` /
+`ppeq` (Run/RunSpline.v ops 3 / 4 / 5): bsplev_single_dual / bsplev_single_dual2, PPSpline::bspldnev, PartialEq for PPSpline."""
 import math
+import random
 from common import *  # noqa
+import dualgen as dg
 
 RUN_TARGET = "theories/Run/RunSpline.vo"
 KIND = {"f64": 0, "dual": 1, "dual2": 2}
@@ -623,6 +626,200 @@ def compare_case(ctx, ci, c, a, b, stats):
                     stats["poly_off"] += 1
 
 
+# ------------------------------------------------------------------------------------------------
+# one basis function at a dual-number abscissa, the vector form, and == of two splines
+# (`rlharness spline` ops evd / vec / ppeq  <->  Run/RunSpline.v ops 3 / 4 / 5)
+
+def ulp_toward_zero(x):
+    b = f2b(x)
+    if b & 0x7FFFFFFFFFFFFFFF == 0:
+        return b2f(b | 1)
+    return b2f(b - 1)
+
+
+def next_up(x):
+    """the next double above x (finite x)"""
+    if x == 0.0:
+        return 5e-324
+    b = f2b(x)
+    return b2f(b + 1) if x > 0 else b2f(b - 1)
+
+
+def gen_knots(rng, k):
+    if k == 1 or rng.random() < 0.2:
+        br = gen_breaks(rng, rng.randint(2, 6))
+        t = []
+        for v in br:
+            t += [v] * rng.choice([1, 1, 1, 2])
+        if len(t) <= k:
+            t += [t[-1]] * (k + 1 - len(t))
+        return t
+    return gen_layout(rng, k)[0]
+
+
+def gen_basis_cases(ctx):
+    rng = random.Random(ctx.seed * 7919 + 15)
+    th = ctx.tier == "thorough"
+    out = []
+    names_pool = [[], ["x"], ["x", "w"], ["y1", "x"], ["b", "a", "c"]]
+    for _ in range(6000 if th else 900 * ctx.scale):
+        k = rng.choice([1, 2, 2, 3, 3, 4, 4, 5])
+        t = gen_knots(rng, k)
+        n = len(t) - k
+        i = rng.randrange(max(1, n)) if rng.random() < 0.93 else rng.choice([n, n + 1, n + k])
+        r = rng.random()
+        pts = sorted(set(t))
+        if r < 0.3:
+            x = rng.choice(pts)
+        elif r < 0.42:
+            x = t[-1]
+        elif r < 0.9:
+            x = rng.uniform(t[0], t[-1])
+        else:
+            x = rng.choice([t[0] - 1.0, t[-1] + 0.5])
+        ro = rng.random()
+        org = None if ro < 0.8 else (k if ro < 0.9 else rng.choice([k + 1, max(1, k - 1)]))
+        kind = rng.choice([1, 2])
+        names = rng.choice(names_pool)
+        X = mk_dual(rng, x, names) if kind == 1 else mk_dual2(rng, x, names)
+        e = [3, kind, i, k, 1 if org is not None else 0, org or 0, len(t)] + [f2b(v) for v in t] + \
+            (enc_dual(X) if kind == 1 else enc_dual2(X))
+        where = "at a knot" if x in pts else "outside the knots" if (x < t[0] or x > t[-1]) else "between knots"
+        if x == t[-1]:
+            where = "at the right end point"
+        out.append(("evd", e, "bsplev_single_%s(X = %r, i = %d, k = %d, t = %r, org_k = %r)" % (
+            "dual" if kind == 1 else "dual2", X, i, k, t, org), ["dual" if kind == 1 else "dual2"],
+            "%s abscissa %s, org_k %s%s" % ("Dual" if kind == 1 else "Dual2", where, "None" if org is None else "Some",
+                                           ", i out of range" if i >= n else "")))
+    for _ in range(1500 if th else 250 * ctx.scale):
+        k = rng.choice([1, 2, 3, 3, 4, 4, 5])
+        t = gen_knots(rng, k)
+        n = len(t) - k
+        i = rng.randrange(max(1, n)) if rng.random() < 0.95 else n + rng.randint(0, 2)
+        m = rng.choice([0, 0, 1, 1, 2, rng.randint(0, k + 1)])
+        pts = sorted(set(t))
+        xs = []
+        for _ in range(rng.choice([0, 1, 3, 5, 8])):
+            r = rng.random()
+            xs.append(rng.choice(pts) if r < 0.35 else rng.uniform(t[0], t[-1]) if r < 0.9 else rng.choice([t[0] - 1.0, t[-1] + 0.5]))
+        lab = "order %d%s" % (k, ", derivative order >= k" if m >= k else "")
+        if rng.random() < 0.04:
+            t = list(reversed(t))
+            lab = "decreasing knots (the constructor aborts)"
+        e = [4, k, i, m, len(t)] + [f2b(v) for v in t] + [len(xs)] + [f2b(v) for v in xs]
+        out.append(("vec", e, "PPSpline::new(%d, %r, None).bspldnev(%r, %d, %d)" % (k, t, xs, i, m), ["vec"], lab))
+    # == of two splines: the second is the first, perturbed in one place (or not at all / re-listed by name)
+    KS = ["f64", "dual", "dual2"]
+    for _ in range(2400 if th else 420 * ctx.scale):
+        kd = rng.randrange(3)
+        k = rng.choice([1, 2, 3, 4])
+        t = gen_knots(rng, k)
+        n = len(t) - k
+
+        def coef():
+            v = rng.choice([1.5, -2.0, 0.25, rng.uniform(-3, 3)])
+            nm = rng.choice([["x"], ["x", "w"], ["y1", "x"]])
+            return v if kd == 0 else mk_dual(rng, v, nm) if kd == 1 else mk_dual2(rng, v, nm)
+        c = [coef() for _ in range(n)] if rng.random() < 0.75 else None
+        A = {"k": k, "t": list(t), "c": c}
+        B = {"k": k, "t": list(t), "c": None if c is None else list(c)}
+        choices = ["identical", "knot", "knot", "order", "more knots", "coefficients dropped / added"]
+        if c:
+            choices += ["coefficient", "coefficient", "coefficient count"]
+            if kd > 0:
+                choices += ["coefficient derivative", "coefficient re-listed by name"]
+        what = rng.choice(choices)
+        expect = 0
+        if what == "identical":
+            expect = 1
+        elif what == "knot":
+            j = rng.choice([0, len(t) - 1])
+            B["t"][j] = next_up(t[j]) if j else -next_up(-t[j])          # keeps the knots non-decreasing
+        elif what == "order":
+            B["k"] = k + 1 if len(t) > k + 1 else max(1, k - 1)
+            if B["k"] == k:
+                expect = 1
+        elif what == "more knots":
+            B["t"] = B["t"] + [B["t"][-1]]
+        elif what == "coefficients dropped / added":
+            B["c"] = None if c is not None else [coef() for _ in range(n)]
+        elif what == "coefficient":
+            j = rng.randrange(len(c))
+            if kd == 0:
+                B["c"][j] = ulp_toward_zero(c[j])
+            else:
+                B["c"][j] = (ulp_toward_zero(c[j][0]),) + tuple(c[j][1:])
+        elif what == "coefficient count":
+            B["c"] = B["c"][:-1] if rng.random() < 0.5 else B["c"] + [coef()]
+        elif what == "coefficient derivative":
+            j = rng.randrange(len(c))
+            du = list(c[j][2])
+            q = rng.randrange(len(du))
+            du[q] = ulp_toward_zero(du[q])
+            B["c"][j] = (c[j][0], c[j][1], du) + tuple(c[j][3:])
+        else:
+            # the same numbers by NAME on another layout: reversed variable order plus a padded zero-sensitivity variable
+            def relist(d):
+                names = list(reversed(d[1])) + ["zpad"]
+                idx = {v: q for q, v in enumerate(d[1])}
+                du = [d[2][idx[v]] if v in idx else 0.0 for v in names]
+                if kd == 1:
+                    return (d[0], names, du)
+                dd = [[d[3][idx[u]][idx[v]] if (u in idx and v in idx) else 0.0 for v in names] for u in names]
+                return (d[0], names, du, dd)
+            B["c"] = [relist(d) for d in c]
+            expect = 1
+
+        def enc_sp(S):
+            o = [S["k"], len(S["t"])] + [f2b(v) for v in S["t"]]
+            if S["c"] is None:
+                return o + [0]
+            o += [1, len(S["c"])]
+            for el in S["c"]:
+                o += enc_elem(KS[kd], el)
+            return o
+        e = [5, kd] + enc_sp(A) + enc_sp(B)
+        out.append(("ppeq", e, "PPSpline<%s> k=%d t=%r c=%r  ==  the same with: %s (k=%d t=%r c=%r)" % (
+            KS[kd], A["k"], A["t"], A["c"], what, B["k"], B["t"], B["c"]), ["int", "int"], what, expect))
+    return out
+
+
+BASIS_OPS = {3: "evd", 4: "vec", 5: "ppeq"}
+
+
+def basis_hline(e):
+    return BASIS_OPS[e[0]] + " " + " ".join(str(x) for x in e[1:])
+
+
+def basis_stage(ctx):
+    cases = gen_basis_cases(ctx)
+    enc = [c[1] for c in cases]
+    impl = run_harness("spline", [basis_hline(e) for e in enc])
+    model = coq_eval("Run.RunSpline", "runSpline", enc, ctx.work, shard=max(20, len(enc) // (NCPU * 3) + 1), tag="basis")
+    for c, a, b in zip(cases, impl, model):
+        tag, e, desc, sch, lab = c[:5]
+        ctx.evaluations += 1
+        ctx.count("%s: cases" % tag)
+        ctx.count("%s: %s" % (tag, lab))
+        ctx.nontriv(("basis", tuple(e)))
+        ok, da, db = dg.agree(a, b, sch, rtol=1e-9)
+        ctx.count("%s outcome: %s" % (tag, da[0]))
+        why = "the implementation disagrees with the proved model"
+        if tag == "ppeq" and da[0] == "ok":
+            # NEGATIVE CONTROL on the real ==: a spline perturbed in one place must compare unequal (both ways); an identical or
+            # by-name re-listed one equal
+            ctx.count("ppeq: == answered %s" % ("true" if da[1][0] else "false"))
+            if da[1] != [c[5], c[5]]:
+                ok = False
+                why = "== of two splines answers %s where %s is required" % (da[1], [c[5], c[5]])
+        if not ok:
+            ctx.violation("%s on %s: implementation %s, model %s" % (why, desc[:700], str(dg.plain(da))[:300], str(dg.plain(db))[:300]),
+                          {"case": e, "basis_op": tag, "what_op": desc[:2000], "schema": sch, "implementation": dg.plain(da),
+                           "model": dg.plain(db), "harness_cmd": "echo '%s' | harness/target/release/rlharness spline" % basis_hline(e)})
+    for c in cases[::max(1, len(cases) // 3)][:3]:
+        ctx.sample(c[2][:300])
+
+
 def run(ctx):
     ctx.rule = ("orders 2-6; knot vectors with k-fold end knots and 0-5 interior breakpoints (multiplicity 1..k-1); "
                 "data sites: Greville sites jittered inside the Schoenberg-Whitney windows (end sites on the end "
@@ -637,7 +834,12 @@ def run(ctx):
                 "and mapped_value with all three Number kinds (the 3x3 table). Observables: outcome classes, "
                 "coefficients, values, first and second order gradients with their variable names; floats compared as "
                 "bit patterns (1e-9 relative if the bits differ). Non-trivial = a solved coefficient vector or a query; "
-                "distinct by (case, position).")
+                "distinct by (case, position). PLUS (ops evd / vec / ppeq): one basis function at a Dual / Dual2 abscissa "
+                "(bsplev_single_dual / _dual2: orders 1-5, abscissa at knots / between / outside / at the right end point, org_k None and "
+                "Some, i also out of range), the vector form PPSpline::bspldnev, and == of two splines where the second is the first "
+                "perturbed in one place (one knot by one ulp, order, knot count, one coefficient by one ulp in value or in one "
+                "derivative, coefficient count, coefficients dropped / added: must be UNEQUAL both ways) or identical / re-listed by "
+                "name on another variable layout (must be EQUAL).")
     ctx.trusted = [
         "Coq 8.16.1 kernel (coqc, full .vo build)",
         "axioms: the classical real numbers of the Coq standard library (see Print Assumptions in the evidence)",
@@ -664,6 +866,7 @@ def run(ctx):
     stats = {"bit_equal": 0, "bit_differs": 0, "nan_both": 0, "zero_sign": 0, "poly_checked": 0, "poly_off": 0}
     for ci, (c, a, b) in enumerate(zip(cases, impl, model)):
         compare_case(ctx, ci, c, a, b, stats)
+    basis_stage(ctx)
     for k, v in stats.items():
         ctx.count("result:" + k, v)
     ctx.notes.append("floats bit-identical: %d; differing in bits but within 1e-9: %d; polynomial data: %d f64 "
@@ -679,6 +882,14 @@ def replay(ctx, rp):
     build_harness()
     build_coq(coq_targets_for("C15") + [RUN_TARGET])
     z = rp["case"]
+    if rp.get("basis_op"):
+        a = run_harness("spline", [basis_hline(z)])[0]
+        b = coq_eval("Run.RunSpline", "runSpline", [z], ctx.work)[0]
+        print("implementation", a[:60])
+        print("model         ", b[:60])
+        ctx.cleanup()
+        ok, _, _ = dg.agree(a, b, rp["schema"], rtol=1e-9)
+        return 0 if ok else 1
     a = run_harness("spline", [hline(z)])
     b = coq_eval("Run.RunSpline", "runSpline", [z], ctx.work)
     print("implementation", a[0][:60])
